@@ -291,6 +291,7 @@ func runFetch(f Fetch) (vs []core.Violation, w *world) {
 			os.Setenv(k, "http://user:pw@"+proxyIP+":3128")
 		}
 	}
+	http.VerifResetProxyEnv() // ProxyFromEnvironment caches the environment per process
 	done := make(chan struct{})
 	var panicVal any
 	go func() {
